@@ -461,7 +461,13 @@ func registerNatives(p *Program) {
 	N["runtime.GOMAXPROCS"] = func(r *Run, g *Goroutine, a []Value) Value { return uint64(r.numCPU()) }
 	N["runtime/debug.Stack"] = func(r *Run, g *Goroutine, a []Value) Value { return stringToSlice("<stack>") }
 	N["runtime/debug.PrintStack"] = noop
-	N["os.Getenv"] = func(r *Run, g *Goroutine, a []Value) Value { return "" }
+	N["os.Getenv"] = func(r *Run, g *Goroutine, a []Value) Value {
+		// the environment is empty, except for switches an instance turns on (EnvParams)
+		if prm, ok := EnvParams[str(a[0])]; ok && r.params[prm] == 1 {
+			return "1"
+		}
+		return ""
+	}
 	N["os.Getpid"] = func(r *Run, g *Goroutine, a []Value) Value { return uint64(4242) }
 	N["time.Now"] = func(r *Run, g *Goroutine, a []Value) Value {
 		t := p.SSAPkg["time"].Type("Time").Object().Type()
@@ -920,3 +926,9 @@ func (r *Run) sprintf(g *Goroutine, format string, args Slice) string {
 }
 
 var _ = sort.Ints
+
+// EnvParams maps environment variables read by the code under test to the instance parameter that sets them
+// to "1" (the native replay exports the same variable).
+var EnvParams = map[string]string{
+	"BOWL_DEBUG_BROKEN_RENAME": "brokenrename", // wharf's own switch: every rename fails, the bowl falls back to copy + remove
+}
